@@ -163,6 +163,42 @@ def raw_volume_extras(ctx):
     return _one(M.mesh.VolumeMesh(raw), "RawMeshData(Vec)")
 
 
+# ---- meshes filled by hand with vectors that come out of the factories of Vec ---------------------------------------
+def _factory_vectors():
+    from mouette import Vec
+    return [Vec.zeros(3), Vec.X(), Vec.Y(), Vec.Z(), Vec.X() + Vec.Z() / 2, Vec.zeros(3) - Vec.Y() * 2]
+
+
+def hand_pointcloud(ctx):
+    """PointCloud() filled through its append(): the vertex objects ARE the vectors the factories handed out (vertex 0
+    is Vec.zeros(3), the origin)"""
+    import mouette as M
+    pc = M.mesh.PointCloud()
+    for v in _factory_vectors()[:4]:
+        pc.append(v)
+    return _one(pc, "PointCloud().append(Vec factory)")
+
+
+def hand_polyline(ctx):
+    """PolyLine() whose containers are filled through their append() (no RawMeshData, no prepare())"""
+    import mouette as M
+    pl = M.mesh.PolyLine()
+    for v in _factory_vectors():
+        pl.vertices.append(v)
+    for e in [(0, 1), (1, 2), (2, 3), (3, 4), (4, 5)]:
+        pl.edges.append(e)
+    return _one(pl, "PolyLine().vertices.append(Vec factory)")
+
+
+def raw_factory(ctx):
+    """RawMeshData filled with factory vectors, then SurfaceMesh(raw) (goes through prepare())"""
+    import mouette as M
+    raw = M.mesh.RawMeshData()
+    raw.vertices += _factory_vectors()[:5]
+    raw.faces += [(0, 1, 2), (0, 2, 3), (1, 4, 2)]
+    return _one(M.mesh.SurfaceMesh(raw), "RawMeshData(Vec factory)")
+
+
 def p_reorder(ctx):
     """reorder_vertices derives a mesh from another one (the source stays live)"""
     import mouette as M
@@ -494,6 +530,7 @@ PRODUCERS = {
     "from_arrays.volume": fa_volume, "from_arrays.hex": fa_hex, "from_arrays.2col": fa_2col, "from_arrays.int": fa_int,
     "raw.lists": raw_lists, "raw.volume": raw_volume, "raw.whisker": raw_whisker, "raw.volume.extras": raw_volume_extras,
     "raw.hex_tet": raw_hex_tet,
+    "hand.pointcloud": hand_pointcloud, "hand.polyline": hand_polyline, "raw.factory": raw_factory,
     "reorder_vertices": p_reorder,
     "triangle": p_triangle, "quad": p_quad, "quad.tri": p_quad_tri, "unit_grid": p_grid, "unit_grid.tri_uv": p_grid_tri_uv,
     "unit_triangle": p_unit_triangle, "ring.closed": p_ring_closed, "ring.open": p_ring_open,
